@@ -229,3 +229,18 @@ package services
 //@   at call X509KeyPair#1 assert args: $arg0 == crt && $arg1 == key
 //@   at call WriteFile#1 assert checked: calls(KeyPair) == 1 && last(KeyPair).1 == nil
 //@ end
+
+// C17 / C15 — the certificate of a PEM bundle is its first block (the leaf):
+// expiry and hostnames are judged on it, never on an issuer further down
+//@ count ParseCrt = x509.ParseCertificate
+//@ func (*SSL).checkValidCertPEM
+//@   props C17 C15
+//@   ensures leaf: result.1 == nil && calls(ParseCrt) >= 1 ==> result.0 == first(ParseCrt).0
+//@   loop 1 invariant first: (calls(ParseCrt) == 0 ==> x509crt == nil) && (calls(ParseCrt) >= 1 ==> x509crt == first(ParseCrt).0 && x509crt != nil)
+//@ end
+
+// C19 — the keyword deny list of the configuration reaches the converter options
+//@ func (*Services).setup
+//@   props C19
+//@   at call new#2 assert deny-list: converterOptions != nil && converterOptions.DisableKeywords == cfg.DisableKeywords
+//@ end
